@@ -223,6 +223,14 @@ func runC25(c *Ctx) []Obligation {
 		c.whoMayCall(P, "slash.callers", "(x/nodes/keeper.Keeper).slash", []string{kN + `(handleDoubleSign|handleValidatorSignature)`}, "fractional slashes only for double-sign evidence and downtime"),
 		c.whoMayCall(P, "simpleSlash.callers", "(x/nodes/keeper.Keeper).simpleSlash", []string{kN + `BurnForChallenge`}, "absolute slashes only from challenge/replay burns"),
 	)
+	// downtime is judged at the start of every block for every vote of the last commit
+	out = append(out, c.hookRowsBegin(P)...)
+	out = append(out, c.Rows([]Row{
+		{Prop: P, ID: "hooks.nodes-module-beginblock", Fn: "(x/nodes.AppModule).BeginBlock", Barrier: []string{`^x/nodes/keeper\.BeginBlocker\(ctx, req, am\.keeper\)`}, Target: TargetAnyReturn(), Why: "the nodes module's BeginBlock runs the keeper's BeginBlocker with the block's request"},
+	})...)
+	out = append(out,
+		c.edgeMust(P, "hooks.every-vote-is-judged", "x/nodes/keeper.BeginBlocker", `^lt\(\(phi:rangeindex \+ 1\), builtin\.len\(\(\*github\.com/tendermint/tendermint/abci/types\.LastCommitInfo\)\.GetVotes\(`, true, `^`+kN+`handleValidatorSignature\(k, ctx, `, 1, "each vote of the last commit is passed to the downtime accounting"),
+	)
 	return out
 }
 
@@ -297,6 +305,8 @@ func runC24(c *Ctx) []Obligation {
 			Assume: []Lit{F(`^` + kP + `GetApplication\(k, ctx, (var:)?msg\.Address\)#1$`)}, Target: CallTo(`BeginUnstakingApplication\(`),
 			Why: "unknown applications cannot unstake"},
 	})...)
+	// "when due": the sweeps run at the end of every block, unconditionally
+	out = append(out, c.hookRowsEnd(P)...)
 	return out
 }
 
